@@ -82,7 +82,10 @@ def _run_chunk(chunk, prop, groups, flavour):
 
 
 def _spec_json(spec):
-    return {"nodes": [list(r) for r in spec.nodes], "typed": spec.typed, "short": spec.short()}
+    j = {"nodes": [list(r) for r in spec.nodes], "typed": spec.typed, "short": spec.short()}
+    if spec.hist is not None:
+        j["hist"] = [[list(r) for r in spec.hist[0]], list(spec.hist[1])]
+    return j
 
 
 def _op_json(op):
@@ -90,7 +93,8 @@ def _op_json(op):
 
 
 def spec_from_json(j) -> gen.Spec:
-    return gen.Spec(tuple(tuple(r) for r in j["nodes"]), typed=j.get("typed", False))
+    h = j.get("hist")
+    return gen.Spec(tuple(tuple(r) for r in j["nodes"]), typed=j.get("typed", False), hist=None if not h else (tuple(tuple(r) for r in h[0]), gen._jsonable(h[1])))
 
 
 def op_from_json(j):
@@ -119,6 +123,8 @@ def states(tier: str, prop: str):
     out = [("str", s) for s in gen.plain_specs(n_plain)]
     out += [("str", s) for s in gen.eqpair_specs(3 if tier == "quick" else 4)]
     out += [("str", s) for s in gen.typed_specs(2 if tier == "quick" else 3)]
+    # pre-states reached by a history: base tree, every accessor evaluated once, one change (gen.history_specs)
+    out += [("str", s) for s in gen.history_specs(gen.plain_specs(2 if tier == "quick" else 3))]
     if tier == "thorough":
         for fl in ("int", "tuple", "dataclass", "dictwrapper", "keyed"):
             out += [(fl, s) for s in gen.plain_specs(3, alphabet=("a", "b"))]
@@ -221,6 +227,29 @@ def _targeted_chunk(chunk, prop):
     return res
 
 
+def _big_chunk(chunk, prop, groups, per_tree):
+    """Larger pre-states (size-dependent paths): a seeded sample of the operation catalogue per tree."""
+    res = Result(prop)
+    for spec, sd in chunk:
+        rng = random.Random(sd)
+        cat = list(ops.enum_ops(spec, groups))
+        for op in rng.sample(cat, min(per_tree, len(cat))):
+            w = ops.World(spec, with_other=ops.needs_other(op))
+            before = view.obs(w.tree)
+            try:
+                diffs = ops.step(w, op)
+            except Exception:  # noqa: BLE001
+                import traceback
+
+                res.errors.append(f"{spec.short()} {op}: {traceback.format_exc()[-800:]}")
+                continue
+            res.add_case(f"{spec.short()} :: {op}", nontrivial=view.obs(w.tree) != before or bool(diffs))
+            for clause, text in diffs:
+                if prop in props_of(op, clause, text):
+                    res.violations.append(Violation(prop, clause, FUNC_OF_OP[op[0]], {"kind": "op", "spec": _spec_json(spec), "flavour": "str", "op": _op_json(op)}, clip(text)))
+    return res
+
+
 def sweep(prop: str, tier: str) -> Result:
     total = Result(prop)
     groups = GROUPS_OF[prop]
@@ -232,6 +261,7 @@ def sweep(prop: str, tier: str) -> Result:
         total.merge(parallel(_run_chunk, specs, prop, groups, fl, prop=prop))
     total.bounds["mutators (model-vs-real, one step)"] = (
         f"all ordered forests with <= {3 if tier == 'quick' else 4} nodes x labelings over {{a,b,c}} (clones incl.), "
+        f"trees of <= {3 if tier == 'quick' else 4} nodes reached by one change of a tree (<= {2 if tier == 'quick' else 3} nodes) whose accessors had all been evaluated, "
         f"equal-but-distinct pairs, typed trees <= {2 if tier == 'quick' else 3} nodes x kinds {{k1,k2}}; every operation/argument combination of ops.enum_ops"
     )
     if prop in ("C01", "C02", "C03", "C04", "C13"):
@@ -240,11 +270,20 @@ def sweep(prop: str, tier: str) -> Result:
     if "sort" in groups:
         total.merge(parallel(_sort_chunk, sort_specs(), prop, prop=prop))
         total.bounds["deep sort (targeted)"] = "5 trees of 5..7 nodes with unsorted child lists at depth 1..3 below single-child chains and next to sorted / one-element lists: sort_children / Tree.sort from every node, every key, reverse and deep on/off"
+    n_big, per_tree = (16, 40) if tier == "quick" else (64, 150)
+    big = [(s, seed() * 7 + k) for k, s in enumerate(gen.big_specs(seed() + 1, n_big, lo=17, hi=30) + gen.big_specs(seed() + 2, n_big // 4, lo=17, hi=24, typed=True))]
+    r = parallel(_big_chunk, big, prop, groups, per_tree, prop=prop)
+    r.exhaustive = False
+    total.merge(r)
+    total.bounds["mutators on larger trees (sampled)"] = f"{len(big)} seeded trees with 17..30 nodes (long sibling runs / chains / mixed; a quarter typed) x {per_tree} sampled operations of ops.enum_ops each (VERIF_SEED={seed()})"
     total.merge(histories(prop, tier))
     return total
 
 
 # ------------------------------------------------------------------ histories
+from .. import hist as _hist  # noqa: E402
+
+
 def _hist_chunk(chunk, prop, length, groups):
     res = Result(prop)
     for (spec_seed,) in chunk:
@@ -261,6 +300,8 @@ def _hist_chunk(chunk, prop, length, groups):
             op = rng.choice(cands)
             hist.append(op)
             try:
+                if spec_seed % 2:
+                    _hist.warm(w.tree)  # every accessor evaluated between the steps: nothing memoised may survive the next change
                 diffs = ops.step(w, op)
             except Exception:  # noqa: BLE001
                 import traceback
@@ -350,7 +391,7 @@ def histories(prop: str, tier: str) -> Result:
     items = [(base + i,) for i in range(n_hist)]
     r = parallel(_hist_chunk, items, prop, length, groups, prop=prop)
     r.exhaustive = False
-    r.bounds["mutators (histories)"] = f"{n_hist} random histories of <= {length} operations from random trees with <= 4 nodes (VERIF_SEED={seed()})"
+    r.bounds["mutators (histories)"] = f"{n_hist} random histories of <= {length} operations from random trees with <= 4 nodes, in every second history all accessors are evaluated between the steps (VERIF_SEED={seed()})"
     return r
 
 
